@@ -98,8 +98,9 @@ static void check_no_bare_lf(void)
 
 /* RFC 5321 reference receiver over outb[0..outlen-3) (payload without the final dot
  * line), compared on the fly with the original message:
- *   message without CR bytes: the decoded payload is byte-identical (LF <-> CRLF);
- *   message with CR bytes:    the property only promises "original line contents" and
+ *   message without bare CR:  the decoded payload has exactly the message's lines (byte-
+ *     identical for CR-free messages; a CRLF line end counts as one line end);
+ *   message with a bare CR:   the property only promises "original line contents" and
  *     the suite pins "bare CR -> CRLF", so CR and LF are compared loosely: the decoded
  *     payload and the message must agree after deleting every CR and LF - no other
  *     byte dropped, duplicated, reordered, and no dot lost or left over. */
@@ -111,7 +112,9 @@ static void check_decodes_to_input(void)
   int bol = 1;
   int hascr = 0;
   unsigned int k;
-  for (k = 0; k < N; ++k) if (k < inlen && in[k] == '\r') hascr = 1;
+  /* loose comparison only for messages with a BARE CR (CR not followed by LF); a message
+   * whose CRs all belong to CRLF line ends must come back with exactly its lines */
+  for (k = 0; k < N; ++k) if (k < inlen && in[k] == '\r' && !(k + 1 < inlen && in[k + 1] == '\n')) hascr = 1;
   for (k = 0; k < OUTMAX; ++k) {
     unsigned char d;
     if (j >= end) break;
@@ -133,6 +136,11 @@ static void check_decodes_to_input(void)
     }
     CHECK(i < inlen, "C06(c): decoded payload is not longer than the message");
     if (i >= inlen) return;
+    if (!hascr && in[i] == '\r') {        /* CRLF line end of the message: exactly one line end arrives */
+      CHECK(d == '\n', "C06(c): a CRLF line end of the message arrives as exactly one line end");
+      i += 2;
+      continue;
+    }
     CHECK(d == in[i], "C06(c): byte arrives unchanged and in order");
     ++i;
   }
